@@ -824,6 +824,11 @@ func (fr *Frame) enterLoop(li *loopInfo, h *ssa.BasicBlock, preds []*ssa.BasicBl
 					break
 				}
 				if v, ok := fr.vals[rv]; ok && v.LV != nil && v.LV.kind != lvObj {
+					if v.LV.kind == lvHeap && strings.HasPrefix(v.LV.key, "c:") {
+						// an escaping local (captured variable): a heap cell addressed by its own reference
+						refs = append(refs, v.LV.ref)
+						continue
+					}
 					precise = false
 					break
 				}
